@@ -99,6 +99,9 @@ func (fx *FuncExec) ghostAfter(st *State, s ast.Stmt, before bool) {
 		}
 		env := fx.specEnv(st, fx.entry, pos, "ghost assignment")
 		v := env.tr(ac.Expr)
+		if v.Sort == nilSort {
+			v = env.coerce(v, fx.reg.compSort[comp])
+		}
 		if v.Sort != fx.reg.compSort[comp] {
 			panic(specError{"after: sort mismatch for " + ac.Var + ": " + v.Sort + " vs " + fx.reg.compSort[comp]})
 		}
